@@ -171,7 +171,8 @@ func registerResolver() {
 			sh("HarnessC10Seq", "histories of 2 Convert calls over 4 target types (two distinct same-named local types, P0, interface)", 0, 2)},
 		Thorough: []Shard{w10(0, 1, 0, 0, 0), w10(0, 1, 11, 9, 0), w10(4, 2, 11, 1, 0), w10(0, 1, 1111, 1, 0), w10(3, 2, 11, 0, 1), w10(0, 2, 1111, 1, 0), w10(0, 1, 2111, 1, 0), w10(4, 1, 1111, 9, 0),
 			sh("HarnessC10Nil", "nilable target: *P0 supplied directly, nil-ness symbolic", 0, 0), sh("HarnessC10Nil", "nilable target: *P0 from a converter, nil-ness symbolic", 0, 1),
-			sh("HarnessC10Nil", "nilable target: []P0 supplied directly, nil-ness symbolic", 0, 2), sh("HarnessC10Nil", "nilable target: []P0 from a converter, nil-ness symbolic", 0, 3)},
+			sh("HarnessC10Nil", "nilable target: []P0 supplied directly, nil-ness symbolic", 0, 2), sh("HarnessC10Nil", "nilable target: []P0 from a converter, nil-ness symbolic", 0, 3),
+			sh("HarnessC10Seq", "histories of 3 Convert calls over 4 target types (two distinct same-named local types, P0, interface)", 0, 3)},
 		Covers:   []string{"C10.both-returned", "C10.failure-checked", "C10.success-checked", "C10.conversion-used", "C10.nilable-checked", "C10.seq-checked"},
 		Bounds:   []string{"target type symbolic over the family's pool (concrete and interface), <=2 supplied values, <=2 converters with symbolic labels; Convert and the identity call run in the same path on the same options"},
 		Outside:  []string{"as C01", "targets with names or subtypes (Convert takes a plain type)"},
@@ -204,7 +205,7 @@ func registerResolver() {
 	}
 	register(&PropSpec{
 		ID: "C15", Pkg: "argmapper",
-		Quick:    []Shard{sh("HarnessC15Set", "value lists of 1 value", 0, 1), sh("HarnessC15Set", "value lists of 2 values", 0, 2), sh("HarnessC15Set", "empty value list", 0, 0), c15b(1, 1, 2, 1), c15b(2, 1, 2, 0), c15b(1, 2, 1, 1), c15b(0, 1, 1, 1),
+		Quick: []Shard{sh("HarnessC15Set", "value lists of 1 value", 0, 1), sh("HarnessC15Set", "value lists of 2 values", 0, 2), sh("HarnessC15Set", "empty value list", 0, 0), c15b(1, 1, 2, 1), c15b(2, 1, 2, 0), c15b(1, 2, 1, 1), c15b(0, 1, 1, 1),
 			sh("HarnessC15Out", "built converter with a named and a type-only output of one type, consumer fed by the type-only output", 0, 3), sh("HarnessC15Out", "same with a struct-form converter", 0, 1)},
 		Thorough: []Shard{sh("HarnessC15Set", "value lists of 1 value", 0, 1), sh("HarnessC15Set", "value lists of 2 values", 0, 2), sh("HarnessC15Set", "value lists of 3 values", 0, 3), sh("HarnessC15Set", "empty value list", 0, 0), c15b(1, 1, 3, 1), c15b(2, 1, 2, 1), c15b(1, 2, 2, 1), c15b(2, 2, 1, 1), c15b(0, 1, 1, 1), c15b(1, 0, 2, 0),
 			sh("HarnessC15Out", "built converter with a named and a type-only output of one type, consumer fed by the type-only output", 0, 3), sh("HarnessC15Out", "same with a struct-form converter", 0, 1), sh("HarnessC15Out", "same with a *struct-form converter", 0, 2)},
